@@ -9,6 +9,8 @@ import Larking.Model.Selector
 import Larking.Model.Negotiate
 import Larking.Model.Trie
 import Larking.Model.Streams
+import Larking.Model.Param
+import Larking.Gen.Params
 import Larking.Gen.Lexer
 namespace Larking.Driver
 open Larking.Status
@@ -289,8 +291,36 @@ def handleStreams : List String → Option String
       pure (match Streams.grpcSend none lim p with | some f => "ok " ++ toHex f | none => "err")
   | _ => none
 
+/-! ### params -/
+def parsePs (s : String) : Option (List Param.P) :=
+  if s == "-" || s.isEmpty then some [] else
+  (s.splitOn ",").mapM fun it =>
+    match it.splitOn ":" with
+    | [fp, rep, v] => do pure { fp := (← fp.toNat?), repeated := rep == "1", val := (← hexArg (v.drop 1).toString) }
+    | _ => none
+
+def showMsg (m : Param.Msg) : String :=
+  let es := m.map fun kv => toString kv.1 ++ "=" ++ "|".intercalate (kv.2.map fun v => "x" ++ toHex v)
+  ";".intercalate (es.toArray.qsort (· < ·)).toList
+
+def handleParams : List String → Option String
+  | ["parseint", signed, bits, raw] => do
+      let b ← bits.toNat?
+      let r ← hexArg raw
+      pure (match Param.parseInt ⟨signed == "1", b⟩ r with | some v => "ok " ++ toString v | none => "err")
+  | ["parsebool", raw] => (hexArg raw).map fun r =>
+      match Param.parseBool r with | some v => "ok " ++ toString v | none => "err"
+  | ["parsebytes", raw] => (hexArg raw).map fun r => optHex (Param.parseBytes r)
+  | ["printint", v] => v.toInt?.map fun i => toHex (Param.printInt i)
+  | ["decodereq", body, query, path] => do
+      let b ← parsePs body
+      let q ← parsePs query
+      let p ← parsePs path
+      pure (showMsg (Param.decodeRequest Gen.pathParamsLast (Param.setAll [] b) q p))
+  | _ => none
+
 def handlers : List (List String → Option String) :=
-  [handleC05, handleC14C15, handleC17, handleC19, handleC04, handleRouting, handleStreams]
+  [handleC05, handleC14C15, handleC17, handleC19, handleC04, handleRouting, handleStreams, handleParams]
 
 def handle (args : List String) : String :=
   match handlers.findSome? (fun h => h args) with
